@@ -3,9 +3,11 @@
 #include <chainparams.h>
 #include <util/time.h>
 #include <sys/wait.h>
+static void rss(const char* w){ std::ifstream f("/proc/self/status"); std::string l; while(std::getline(f,l)) if(l.rfind("VmRSS",0)==0||l.rfind("VmSize",0)==0) printf("%s %s\n",w,l.c_str()); }
 int main(int argc,char**argv){ vx::init(argc,argv,"T","exploration"); vx::scratch_dir();
- double t0=vx::elapsed(); { ck::Node n; double t1=vx::elapsed(); printf("node ctor %.3f\n",t1-t0);
+ rss("start");
+ double t0=vx::elapsed(); { ck::NodeOpts o; if(getenv("MINC")) o.min_validation_cache=true; ck::Node n(o); double t1=vx::elapsed(); printf("node ctor %.3f\n",t1-t0); rss("ctor");
  ck::RefLedger L; L.AddGenesis(Params().GenesisBlock()); SetMockTime(Params().GenesisBlock().nTime+600*100000);
  ck::MineEmpty(n,L,110); printf("mine110 %.3f\n",vx::elapsed()-t1); t1=vx::elapsed();
- for(int i=0;i<20;i++){ pid_t p=fork(); if(p==0){ CBlock b=ck::MakeBlock(n,n.tip(),{}); n.ProcessBlock(b); _exit(0);} int st; waitpid(p,&st,0);} printf("20 forks %.3f\n",vx::elapsed()-t1); t1=vx::elapsed(); }
+ for(int i=0;i<20;i++){ pid_t p=fork(); if(p==0){ if(!getenv("NOPNB")){CBlock b=ck::MakeBlock(n,n.tip(),{}); n.ProcessBlock(b);} _exit(0);} int st; waitpid(p,&st,0);} printf("20 forks %.3f\n",vx::elapsed()-t1); t1=vx::elapsed(); }
  printf("dtor %.3f\n",vx::elapsed()-t0); return 0; }
